@@ -8,9 +8,24 @@ package c04
 // (all constructions of this process are serialised by hostsMu; the file is only read there). The names
 // the harness expects are read from the text by the harness's own reader, lower-cased; the model is given
 // the records and composes the list itself (`hostsrec=`, Model/C04.lean hpLocalhost).
+//
+// CONSTRUCTION OUTCOME. The library that decodes the file is all or nothing: on the first line it cannot read
+// (fewer than two fields, a first field that is no address, a line of 64 KiB or more) it returns an empty file
+// and the error, wherever the line is, and NewHTTPProxy fails with it (Model/C04.lean hpLocalhostOf: Except).
+// So part of the generated files are ones the decoder REJECTS (reqmodel.GenHostsMalformed: such a line at the
+// beginning / in the middle / at the end, next to well-formed loopback alias records), files that are missing or
+// cannot be read (a directory), and other forms of a well-formed file (empty, only comments, CRLF, CR only, no
+// final line feed, a record just below the line limit). For each the outcome of the construction is compared
+// with the model's (`C04 hostsdecode`) and with the harness's own reading (reqmodel.ReadHostsStrict). When the
+// implementation constructs an instance although the file is rejected, the instance is kept and JUDGED: every
+// name the line-by-line reading of the file (reqmodel.ReadHostsLoose: what the machine's resolver makes of it)
+// gives to a loopback address must still be refused with localhost denial on — each is probed (GET, HEAD,
+// CONNECT; as spelt, lower, upper case), and a probe that is forwarded is a violation of the property with the
+// hosts file and the request as the failing input.
 
 import (
 	"fmt"
+	"net/netip"
 	"os"
 	"path/filepath"
 	"sort"
@@ -24,6 +39,67 @@ import (
 	"github.com/saucelabs/forwarder/verifharness/reqmodel"
 	"github.com/saucelabs/forwarder/verifharness/rig"
 )
+
+// hostsSrc says where the hosts file of an instance comes from.
+type hostsSrc struct {
+	// State: "" = a file with Text (Text == "": the machine's own file) | "empty" = an empty file |
+	// "missing" = no such file | "dir" = a directory (opens, cannot be read)
+	State string
+	Text  string
+}
+
+func (s hostsSrc) generated() bool { return s.State != "" || s.Text != "" }
+
+// modelToken: the source as `C04 hostsdecode` takes it.
+func (s hostsSrc) modelToken() string {
+	switch s.State {
+	case "missing":
+		return "missing"
+	case "dir":
+		return "unreadable"
+	case "empty":
+		return core.HexS("")
+	}
+	return core.HexS(s.Text)
+}
+
+// expect: the harness's own reading of the source — the reason the construction must fail ("" = it succeeds)
+// and the records: all of them for a file that is read, those of the lines that can be read for a rejected one.
+func (s hostsSrc) expect() (reject string, recs []reqmodel.HostsRecord) {
+	switch s.State {
+	case "missing":
+		return "open", nil
+	case "dir":
+		return "read", nil
+	case "empty":
+		return "", nil
+	}
+	if _, kind := reqmodel.ReadHostsStrict(s.Text); kind != "" {
+		return kind, reqmodel.ReadHostsLoose(s.Text)
+	}
+	return "", reqmodel.ParseHosts(s.Text)
+}
+
+// errHostsRejected: the construction failed on a hosts file that must be rejected (model and implementation agree).
+var errHostsRejected = fmt.Errorf("hosts file rejected, as modelled")
+
+// errKindOf: the reason hostsfile.LocalhostAliases gives, as the model names it ("other" when it is none of them).
+func errKindOf(err error) string {
+	m := err.Error()
+	switch {
+	case strings.Contains(m, "token too long"):
+		return "too-long"
+	case strings.Contains(m, "invalid hostsfile entry"):
+		return "entry"
+	case strings.Contains(m, "no such file"):
+		return "open"
+	case strings.Contains(m, "is a directory"):
+		return "read"
+	case strings.Contains(m, "lookup ") || strings.Contains(m, "no such host"):
+		return "address"
+	}
+	return "other"
+}
 
 // hostsMu serialises everything that reads or redirects hflib.Location.
 var hostsMu sync.RWMutex
@@ -40,10 +116,12 @@ func namesFromHosts(recs []reqmodel.HostsRecord) []string {
 	return out
 }
 
-// startProxyWithHosts starts the proxy while hosts ("" = the machine's own file) is the hosts file; for a
-// generated file it also compares what hostsfile.LocalhostAliases reads with the harness's own reading.
-func startProxyWithHosts(ctx *core.Ctx, opts rig.ProxyOpts, hosts string, recs []reqmodel.HostsRecord) (*rig.Proxy, error) {
-	if hosts == "" {
+// startProxyWithHosts starts the proxy while src is the hosts file; for a generated file it also compares what
+// hostsfile.LocalhostAliases reads with the harness's own reading, and the outcome of the construction with the
+// expected one (reject != "": NewHTTPProxy must fail). errHostsRejected = it failed as expected; an instance that
+// exists although the file is rejected is reported and returned (the caller probes it).
+func startProxyWithHosts(ctx *core.Ctx, opts rig.ProxyOpts, src hostsSrc, recs []reqmodel.HostsRecord, reject string) (*rig.Proxy, error) {
+	if !src.generated() {
 		// constructions on the machine's own file run side by side; none runs while a generated file is installed
 		hostsMu.RLock()
 		defer hostsMu.RUnlock()
@@ -55,8 +133,16 @@ func startProxyWithHosts(ctx *core.Ctx, opts rig.ProxyOpts, hosts string, recs [
 	dir := filepath.Join(ctx.Root, ".work")
 	os.MkdirAll(dir, 0o755)
 	path := filepath.Join(dir, fmt.Sprintf("c04-hosts-%d-%d-%d", os.Getpid(), time.Now().UnixNano(), hostsSeq))
-	if err := os.WriteFile(path, []byte(hosts), 0o644); err != nil {
-		core.Fatalf("cannot write hosts file: %v", err)
+	switch src.State {
+	case "missing":
+	case "dir":
+		if err := os.Mkdir(path, 0o755); err != nil {
+			core.Fatalf("cannot make the directory that stands for the hosts file: %v", err)
+		}
+	default:
+		if err := os.WriteFile(path, []byte(src.Text), 0o644); err != nil {
+			core.Fatalf("cannot write hosts file: %v", err)
+		}
 	}
 	defer os.Remove(path)
 	saved := hflib.Location
@@ -64,10 +150,24 @@ func startProxyWithHosts(ctx *core.Ctx, opts rig.ProxyOpts, hosts string, recs [
 	defer func() { hflib.Location = saved }()
 	got, err := hostsfile.LocalhostAliases()
 	want, _ := reqmodel.LoopbackNames(recs)
-	cs := map[string]any{"kind": "hostsfile", "hosts": hosts}
-	if err != nil {
+	cs := map[string]any{"kind": "hostsfile", "hosts": src.Text}
+	if src.State != "" {
+		cs["hosts_state"] = src.State
+	}
+	switch {
+	case reject != "" && err == nil:
+		ctx.Disagree("hostsfile.LocalhostAliases fails on a hosts file that cannot be read completely (Model hpLocalhostOf = error)", cs,
+			fmt.Sprintf("no error, aliases %q", got), "error: "+reject)
+	case reject != "":
+		ctx.Count("hosts-file/localhost-aliases-error/" + errKindOf(err))
+		if k := errKindOf(err); k != reject {
+			ctx.Disagree("the reason hostsfile.LocalhostAliases fails = Model hpLocalhostOf's error", cs, k+": "+err.Error(), reject)
+		} else {
+			ctx.TraceValidated()
+		}
+	case err != nil:
 		ctx.Disagree("hostsfile.LocalhostAliases reads a well-formed hosts file", cs, err.Error(), fmt.Sprint(want))
-	} else {
+	default:
 		g, w := append([]string{}, got...), append([]string{}, want...)
 		sort.Strings(g)
 		sort.Strings(w)
@@ -77,7 +177,19 @@ func startProxyWithHosts(ctx *core.Ctx, opts rig.ProxyOpts, hosts string, recs [
 			ctx.TraceValidated()
 		}
 	}
-	return rig.StartProxy(opts)
+	p, err := rig.StartProxy(opts)
+	if reject == "" {
+		return p, err
+	}
+	if err != nil {
+		ctx.Count("hosts-file/construction-fails-as-modelled")
+		ctx.TraceValidated()
+		return nil, errHostsRejected
+	}
+	ctx.Count("hosts-file/CONSTRUCTED-ALTHOUGH-REJECTED")
+	ctx.Disagree("NewHTTPProxy fails on a hosts file that cannot be read completely (Model hpLocalhostOf = error)", cs,
+		"an instance was constructed", "construction fails: "+reject)
+	return p, nil
 }
 
 // hostsFile is one generated hosts file with what the generator draws targets from.
@@ -89,10 +201,22 @@ type hostsFile struct {
 	// mode: every instance constructed on this file runs in one mode (constructions on generated files are
 	// serialised, so their number is kept small)
 	mode string
+	// state: see hostsSrc.State; reject: why the construction must fail ("" = it succeeds; then recs are the records
+	// of the lines that can be read); form / where / classes: what the generator made (for the histogram)
+	state   string
+	reject  string
+	form    string
+	where   string
+	classes []string
 }
 
-func newHostsFile(text string) *hostsFile {
-	hf := &hostsFile{text: text, recs: reqmodel.ParseHosts(text)}
+func (hf *hostsFile) src() hostsSrc { return hostsSrc{State: hf.state, Text: hf.text} }
+
+func newHostsFile(text string) *hostsFile { return newHostsFileSrc(hostsSrc{Text: text}) }
+
+func newHostsFileSrc(src hostsSrc) *hostsFile {
+	hf := &hostsFile{text: src.Text, state: src.State}
+	hf.reject, hf.recs = src.expect()
 	hf.loop, hf.other = reqmodel.LoopbackNames(hf.recs)
 	return hf
 }
@@ -114,6 +238,50 @@ func genHostsFiles(ctx *core.Ctx) []*hostsFile {
 		hf := newHostsFile(t)
 		hf.mode = []string{"direct", "upstream", "direct", "mitm", "direct", "upstream"}[i%6]
 		out = append(out, hf)
+	}
+	// other forms of a well-formed file, and the sources that are no text
+	add := func(hf *hostsFile, form string) {
+		hf.form = form
+		hf.mode = []string{"direct", "upstream", "direct", "mitm"}[len(out)%4]
+		out = append(out, hf)
+	}
+	add(newHostsFileSrc(hostsSrc{State: "empty"}), "empty")
+	add(newHostsFileSrc(hostsSrc{State: "missing"}), "missing")
+	add(newHostsFileSrc(hostsSrc{State: "dir"}), "unreadable")
+	add(newHostsFile("# Host Database\r\n#\r\n127.0.0.1\tlocalhost\r\n127.0.1.1\tDevBox devbox.lan\r\n::1\tip6-localhost ip6-loopback\r\n"), "crlf")
+	for i, n := 0, ctx.N(5, 30); i < n; i++ {
+		t, form := reqmodel.GenHostsForm(r.Sub())
+		for form == "hash-inside-a-name" {
+			// (a name with a '#' inside is no request target the pipeline model covers: such files go through hostsDecodeAPI only)
+			t, form = reqmodel.GenHostsForm(r.Sub())
+		}
+		add(newHostsFile(t), form)
+	}
+	// files the decoder rejects: the line it cannot read at the beginning, in the middle, at the end, next to
+	// well-formed loopback alias records
+	for _, t := range []string{
+		"127.0.0.1\n127.0.1.1 devbox\n::1 ip6-localhost ip6-loopback\n",
+		"127.0.0.1 localhost\n127.0.1.1 devbox\n10.8.0.1\n::1 ip6-localhost ip6-loopback\n",
+		"127.0.0.1 localhost registry.local kubernetes.docker.internal\n127.0.1.1 DevBox\n::1 ip6-localhost\n127.0.0.1",
+		"\xef\xbb\xbf127.0.0.1 localhost\n127.0.1.1 devbox\n",
+		"127.0.1.1 devbox\n127.0.0.1:80 web.local\n",
+	} {
+		hf := newHostsFile(t)
+		add(hf, "rejected")
+	}
+	for i, n := 0, ctx.N(12, 80); i < n; i++ {
+		t, classes, where := reqmodel.GenHostsMalformed(r.Sub())
+		hf := newHostsFile(t)
+		hf.classes, hf.where = classes, where
+		add(hf, "rejected")
+	}
+	for _, hf := range out {
+		if hf.form == "rejected" && hf.reject == "" {
+			core.Fatalf("generated hosts file %q is not rejected by the harness's reading", hf.text)
+		}
+		if hf.form != "rejected" && hf.state == "" && hf.reject != "" {
+			core.Fatalf("generated hosts file %q is rejected by the harness's reading: %s", hf.text, hf.reject)
+		}
 	}
 	return out
 }
@@ -156,7 +324,7 @@ func (hf *hostsFile) genHost(r *core.Rand) (string, string) {
 func genHostsConn(r *core.Rand, hf *hostsFile) *connCase {
 	names := append([]string{"localhost", "0.0.0.0", "::"}, hf.loop...)
 	cc := genConnWith(r, names, hf)
-	cc.Hosts = hf.text
+	cc.Hosts, cc.HostsState = hf.text, hf.state
 	cc.Frames, cc.TimeOpen = "", true
 	cc.Mask = core.Pick(r, []int{ctlLocal, ctlLocal, ctlLocal, ctlLocal | ctlDeny, ctlLocal | ctlAuth, 0})
 	if cc.Mask&ctlAuth != 0 {
@@ -211,7 +379,13 @@ func hostsAPI(ctx *core.Ctx, files []*hostsFile) {
 		tok := reqmodel.HostsRecordsToken(hf.recs)
 		names := namesFromHosts(hf.recs)
 		var hosts []string
-		for _, n := range append(append([]string{}, hf.loop...), hf.other...) {
+		all := append(append([]string{}, hf.loop...), hf.other...)
+		if len(all) > 40 {
+			// (a record just below the line limit has thousands of names)
+			core.Shuffle(r, all)
+			all = all[:40]
+		}
+		for _, n := range all {
 			hosts = append(hosts, n, strings.ToLower(n), strings.ToUpper(n), randCase(r, n), n+"x")
 		}
 		hosts = append(hosts, "localhost", "LOCALHOST", "LocalHost", "0.0.0.0", "::", "127.0.0.1", "::1", "127.9.9.9", "10.0.0.5", "localhostx", "")
@@ -243,4 +417,268 @@ func hostsAPI(ctx *core.Ctx, files []*hostsFile) {
 			ctx.Count("api/hostsfile-name-model-vs-oracle")
 		}
 	}
+}
+
+// ---- the outcome of reading a hosts file: model, harness, library ----
+
+// decodeAnswer is what `C04 hostsdecode` says.
+type decodeAnswer struct {
+	reject  string
+	recs    []reqmodel.HostsRecord
+	aliases []string
+	names   []string
+	loose   []reqmodel.HostsRecord
+}
+
+func unRecords(tok string) []reqmodel.HostsRecord {
+	var out []reqmodel.HostsRecord
+	for _, e := range core.SplitList2(tok) {
+		atoms := core.UnHexList(e)
+		out = append(out, reqmodel.HostsRecord{IP: atoms[0], Names: atoms[1:]})
+	}
+	return out
+}
+
+func askHostsDecode(ctx *core.Ctx, src hostsSrc) decodeAnswer {
+	ans := ctx.Model.MustAsk("C04", "hostsdecode", src.modelToken())
+	var d decodeAnswer
+	f := strings.Fields(ans)
+	kv := map[string]string{}
+	for _, t := range f {
+		if k, v, ok := strings.Cut(t, "="); ok {
+			kv[k] = v
+		}
+	}
+	switch {
+	case len(f) > 0 && strings.HasPrefix(f[0], "err="):
+		d.reject = kv["err"]
+	case len(f) > 0 && f[0] == "ok":
+		d.recs, d.aliases, d.names = unRecords(kv["recs"]), core.UnHexList(kv["aliases"]), core.UnHexList(kv["names"])
+	default:
+		core.Fatalf("unparsable hostsdecode answer %q", ans)
+	}
+	d.loose = unRecords(kv["loose"])
+	return d
+}
+
+func recordsEqual(a, b []reqmodel.HostsRecord) bool {
+	if len(a) != len(b) {
+		return false
+	}
+	for i := range a {
+		if a[i].IP != b[i].IP || strings.Join(a[i].Names, "\x00") != strings.Join(b[i].Names, "\x00") {
+			return false
+		}
+	}
+	return true
+}
+
+// libRecords: what the library's Decode yields, in the harness's terms (names sorted: the library keeps a set).
+func libRecords(text string) (recs []reqmodel.HostsRecord, loopback []bool, err error) {
+	h, err := hflib.Decode(strings.NewReader(text))
+	for _, r := range h.Records() {
+		if r.Hostnames == nil {
+			continue
+		}
+		rec := reqmodel.HostsRecord{IP: r.IpAddress.IP.String()}
+		for n := range r.Hostnames {
+			rec.Names = append(rec.Names, n)
+		}
+		sort.Strings(rec.Names)
+		recs = append(recs, rec)
+		loopback = append(loopback, r.IpAddress.IP.IsLoopback())
+	}
+	return recs, loopback, err
+}
+
+func sortedSet(xs []string) []string {
+	m := map[string]bool{}
+	for _, x := range xs {
+		m[x] = true
+	}
+	var out []string
+	for x := range m {
+		out = append(out, x)
+	}
+	sort.Strings(out)
+	return out
+}
+
+// hostsDecodeCase: one hosts-file text through the model's reader (`C04 hostsdecode`), the harness's own reading and
+// the library's Decode: rejected or not and why, the records, which of them are loopback records, the aliases.
+// Model against harness is a check of the check (fatal); the library against both is the correspondence.
+func hostsDecodeCase(ctx *core.Ctx, src hostsSrc, label string) {
+	reject, recs := src.expect()
+	d := askHostsDecode(ctx, src)
+	cs := map[string]any{"kind": "hosts-decode", "hosts": src.Text, "hosts_state": src.State}
+	ctx.Case("hosts-decode|"+src.State+"|"+src.Text, reject != "" || len(recs) > 0)
+	ctx.Count("hosts-decode/" + label)
+	if reject != "" {
+		ctx.Count("hosts-decode/rejected/" + reject)
+	} else {
+		ctx.Count("hosts-decode/read")
+	}
+	if d.reject != reject {
+		core.Fatalf("hosts file %q (%s): Model hpLocalhostOf says %q, the harness's reading %q", src.Text, src.State, d.reject, reject)
+	}
+	if reject == "" {
+		strict, _ := reqmodel.ReadHostsStrict(src.Text)
+		loop, _ := reqmodel.LoopbackNames(strict)
+		if !recordsEqual(d.recs, strict) || strings.Join(sortedSet(d.aliases), "\x00") != strings.Join(sortedSet(loop), "\x00") {
+			core.Fatalf("hosts file %q: Model decodeHosts %v aliases %q, the harness reads %v aliases %q", src.Text, d.recs, d.aliases, strict, loop)
+		}
+		want := []string{"localhost", "0.0.0.0", "::"}
+		for _, a := range d.aliases {
+			want = append(want, strings.ToLower(a))
+		}
+		if strings.Join(d.names, "\x00") != strings.Join(want, "\x00") {
+			core.Fatalf("hosts file %q: Model hp.localhost %q, expected %q", src.Text, d.names, want)
+		}
+	}
+	if !recordsEqual(d.loose, reqmodel.ReadHostsLoose(src.Text)) {
+		core.Fatalf("hosts file %q: Model looseRecords %v, the harness reads %v", src.Text, d.loose, reqmodel.ReadHostsLoose(src.Text))
+	}
+	if src.State != "" && src.State != "empty" {
+		return // (no text: the library is exercised through LocalhostAliases when an instance is constructed)
+	}
+	lrecs, lloop, lerr := libRecords(src.Text)
+	switch {
+	case reject != "" && lerr == nil:
+		ctx.Disagree("hostsfile Decode fails on a text that cannot be read completely (Model decodeHosts = error)", cs, fmt.Sprintf("no error, records %v", lrecs), "error: "+reject)
+	case reject != "":
+		if k := errKindOf(lerr); k != reject {
+			ctx.Disagree("the reason Decode fails = Model decodeHosts' error", cs, k+": "+lerr.Error(), reject)
+		} else if len(lrecs) != 0 {
+			ctx.Disagree("Decode returns no record with an error (all or nothing)", cs, fmt.Sprint(lrecs), "no records")
+		} else {
+			ctx.TraceValidated()
+		}
+	case lerr != nil:
+		ctx.Disagree("hostsfile Decode reads a well-formed text (Model decodeHosts = records)", cs, lerr.Error(), fmt.Sprint(d.recs))
+	default:
+		ok := len(lrecs) == len(d.recs)
+		for i := 0; ok && i < len(lrecs); i++ {
+			a, err := netip.ParseAddr(d.recs[i].IP)
+			ok = err == nil && a.Unmap().String() == lrecs[i].IP &&
+				strings.Join(sortedSet(d.recs[i].Names), "\x00") == strings.Join(lrecs[i].Names, "\x00") &&
+				reqmodel.IsLoopbackIP(d.recs[i].IP) == lloop[i]
+		}
+		if !ok {
+			ctx.Disagree("records Decode yields (address, names as a set, IsLoopback) = Model decodeHosts", cs, fmt.Sprint(lrecs, lloop), fmt.Sprint(d.recs))
+		} else {
+			ctx.TraceValidated()
+		}
+	}
+}
+
+var hostsZoneLines = []string{"::1%lo devzone", "::1%lo0 Zoned.local zoned", "fe80::1%eth0 router.lan", "::ffff:127.0.0.1%x mapped-zone", "0:0:0:0:0:0:0:1%1 one"}
+
+// hostsDecodeAPI: the hosts files of this run and many more texts (well-formed, other forms, rejected, with zoned
+// addresses) through hostsDecodeCase.
+func hostsDecodeAPI(ctx *core.Ctx, files []*hostsFile) {
+	for _, hf := range files {
+		hostsDecodeCase(ctx, hf.src(), "file-of-this-run")
+	}
+	for _, l := range reqmodel.HostsBadAddrs() {
+		if !reqmodel.HostsAddrNeverResolved(l) {
+			core.Fatalf("generator: %q may be resolved as a host name", l)
+		}
+		hostsDecodeCase(ctx, hostsSrc{Text: "127.0.1.1 devbox\n" + l + " name\n"}, "bad-address-pool")
+	}
+	r := ctx.Rng.Sub()
+	for i, n := 0, ctx.N(400, 4000); i < n; i++ {
+		switch k := r.Intn(10); {
+		case k < 2:
+			hostsDecodeCase(ctx, hostsSrc{Text: reqmodel.GenHosts(r.Sub())}, "well-formed")
+		case k < 4:
+			t, form := reqmodel.GenHostsForm(r.Sub())
+			hostsDecodeCase(ctx, hostsSrc{Text: t}, "form/"+form)
+		case k < 5:
+			t := reqmodel.GenHosts(r.Sub())
+			lines := strings.Split(strings.TrimSuffix(t, "\n"), "\n")
+			at := r.Intn(len(lines) + 1)
+			lines = append(lines[:at:at], append([]string{core.Pick(r, hostsZoneLines)}, lines[at:]...)...)
+			hostsDecodeCase(ctx, hostsSrc{Text: strings.Join(lines, "\n") + "\n"}, "zoned-address")
+		default:
+			t, classes, where := reqmodel.GenHostsMalformed(r.Sub())
+			hostsDecodeCase(ctx, hostsSrc{Text: t}, "rejected/"+where)
+			for _, c := range classes {
+				ctx.Count("hosts-decode/bad-line/" + c)
+			}
+		}
+	}
+}
+
+// ---- the outcome of the construction, and the aliases of an instance that exists ----
+
+// probeItem: one request for authority — a CONNECT, or a generated GET/HEAD/POST (inner: inside the intercepted tunnel).
+func probeItem(r *core.Rand, authority string, connect, inner bool, label string) item {
+	id := fmt.Sprintf("c04-%d-probe", idSeq.Add(1))
+	if connect {
+		return item{Connect: &reqmodel.ConnectReq{Authority: authority, Minor: 1, Fields: []rig.Field{{Name: "Host", Value: authority}, {Name: "Case-Id", Value: id}}},
+			Label: label + ",connect"}
+	}
+	scheme := "http"
+	if inner {
+		scheme = "https"
+	}
+	q := reqmodel.GenRequest(r, reqmodel.GenOpts{Host: authority, Scheme: scheme, ID: id, AllowBody: false})
+	var fs []rig.Field
+	for _, f := range q.Fields {
+		if !strings.EqualFold(f.Name, "Proxy-Authorization") {
+			fs = append(fs, f)
+		}
+	}
+	q.Fields = fs
+	return item{Req: q, Label: label}
+}
+
+// hostsConstructCases counts the construction case of hf and yields the probes of its loopback aliases: one connection
+// per probe (a CONNECT that is accepted ends its connection), localhost denial on and alone, in the file's mode. On a
+// file that is read they are ordinary cases (every alias of every file is aimed at, not only the ones the random
+// connections draw); on a rejected file they run only when the implementation constructed an instance all the same —
+// then every one of them must be refused (env.spec: the names of the loopback records the line-by-line reading finds
+// are localhost names), and a probe that is forwarded is reported as a violation with the hosts file and the request.
+func hostsConstructCases(ctx *core.Ctx, hf *hostsFile) []*connCase {
+	r := ctx.Rng.Sub()
+	ctx.Case("hosts-construct|"+hf.state+"|"+hf.text, hf.reject != "" || len(hf.loop) > 0)
+	if hf.reject != "" {
+		ctx.Count("hosts-file/construct/must-fail/" + hf.reject)
+		if hf.where != "" {
+			ctx.Count("hosts-file/construct/unreadable-line-at/" + hf.where)
+		}
+		for _, c := range hf.classes {
+			ctx.Count("hosts-file/construct/unreadable-line/" + c)
+		}
+		if len(hf.loop) > 0 {
+			ctx.Count("hosts-file/construct/must-fail-with-loopback-aliases-beside")
+		}
+	} else {
+		ctx.Count("hosts-file/construct/must-succeed")
+	}
+	if hf.form != "" {
+		ctx.Count("hosts-file/form/" + hf.form)
+	}
+	aliases := append([]string{}, hf.loop...)
+	if len(aliases) > 12 {
+		core.Shuffle(r, aliases)
+		aliases = aliases[:12]
+	}
+	aliases = append(aliases, "localhost")
+	var out []*connCase
+	mk := func(it item) {
+		cc := &connCase{Kind: "conn", Mask: ctlLocal, TimeOpen: true, Mode: hf.mode, Hosts: hf.text, HostsState: hf.state}
+		if hf.mode == "mitm" && it.Connect == nil {
+			cc.Items = append(cc.Items, item{Connect: &reqmodel.ConnectReq{Authority: "origin.test:443", Minor: 1,
+				Fields: []rig.Field{{Name: "Host", Value: "origin.test:443"}, {Name: "Case-Id", Value: fmt.Sprintf("c04-%d-open", idSeq.Add(1))}}}, Label: "host-routed,connect,mitm-open"})
+		}
+		cc.Items = append(cc.Items, it)
+		out = append(out, cc)
+	}
+	for _, a := range aliases {
+		port := core.Pick(r, []string{"", ":80", ":8080"})
+		mk(probeItem(r, spellings(r, a)+port, false, hf.mode == "mitm", "probe-alias"))
+		mk(probeItem(r, core.Pick(r, []string{a, strings.ToLower(a), strings.ToUpper(a)})+core.Pick(r, []string{":443", ":22", ":80"}), true, false, "probe-alias"))
+	}
+	return out
 }
